@@ -24,9 +24,11 @@ def main() -> None:
     for pt in req["points"]:
         rec = {"args": pt}
         try:
-            ok, witness = h.fn(*[pt[p.name] for p in h.params])
-            rec["ok"] = bool(ok)
-            rec["witness"] = bool(witness)
+            res = h.fn(*[pt[p.name] for p in h.params])
+            rec["ok"] = bool(res[0])
+            rec["witness"] = bool(res[1])
+            if len(res) > 2:
+                rec["detail"] = res[2]
         except Exception as err:
             rec["exception"] = "{}: {}".format(type(err).__name__, err)[:500]
             rec["traceback"] = traceback.format_exc()[-1500:]
